@@ -9,6 +9,7 @@ import (
 	"encoding/hex"
 	"fmt"
 	"go/types"
+	"strings"
 )
 
 type shaState struct{ acc symStr }
@@ -85,9 +86,54 @@ func init() {
 		fr.i.ex.shaHexTerm(arg)
 		return symStr{bytes: true, p: []piece{{k: pTok, t: "(sha256raw " + arg + ")"}}}
 	}
+	// sha256.Sum256(data): the array form of the same digest. For symbolic data its 32 bytes are the
+	// terms (sha256byte k arg); hex.EncodeToString recognises the complete sequence again.
+	intrinsics["crypto/sha256.Sum256"] = func(fr *frame, args []value) value {
+		r := toRope(args[0])
+		p := normRope(r.p)
+		if len(p) == 0 || (len(p) == 1 && p[0].k == pLit) {
+			s := ""
+			if len(p) == 1 {
+				s = p[0].lit
+			}
+			sum := sha256.Sum256([]byte(s))
+			out := make(array, 0, 32)
+			for _, b := range sum {
+				out = append(out, b)
+			}
+			return out
+		}
+		arg, ok := fr.i.ex.strTerm(p)
+		if !ok {
+			panic(abortPath{why: "sha256 of a composite symbolic string", kind: "unsupported"})
+		}
+		fr.i.ex.shaHexTerm(arg)
+		fr.i.ex.solver.declareFun("sha256byte", "(Int Str) (_ BitVec 8)")
+		out := make(array, 0, 32)
+		for k := 0; k < 32; k++ {
+			out = append(out, symBV{fmt.Sprintf("(sha256byte %d %s)", k, arg), 8})
+		}
+		return out
+	}
 	intrinsics["encoding/hex.EncodeToString"] = func(fr *frame, args []value) value {
 		switch x := args[0].(type) {
 		case []value:
+			// the 32 bytes of one symbolic digest, in order
+			if len(x) == 32 {
+				if b0, ok := x[0].(symBV); ok && strings.HasPrefix(b0.t, "(sha256byte 0 ") {
+					arg := strings.TrimSuffix(strings.TrimPrefix(b0.t, "(sha256byte 0 "), ")")
+					whole := true
+					for k := range x {
+						bk, ok := x[k].(symBV)
+						if !ok || bk.t != fmt.Sprintf("(sha256byte %d %s)", k, arg) {
+							whole = false
+						}
+					}
+					if whole {
+						return symStr{p: []piece{{k: pTok, t: "(hexenc (sha256raw " + arg + "))"}}}
+					}
+				}
+			}
 			b := make([]byte, len(x))
 			for i := range x {
 				c, ok := x[i].(uint8)
